@@ -272,6 +272,10 @@ func (k *kindOracle) entryFact(fn *ssa.Function, subj any, depth int) kindSet {
 	if len(callers) == 0 {
 		return allKinds
 	}
+	if ks, ok := k.tableDispatchKinds(fn, idx, callers); ok {
+		k.memo[key] = ks
+		return ks
+	}
 	var u kindSet
 	for _, site := range callers {
 		if site.Common().StaticCallee() != fn {
@@ -1092,4 +1096,129 @@ func treeCycle(p *Prog, comp []*ssa.Function, in map[*ssa.Function]bool) (bool, 
 func isNodeLike(t types.Type) bool {
 	s := typeShort(t)
 	return strings.Contains(s, "golang.org/x/net/html.Node") || strings.Contains(s, "goldmark/ast.Node") || strings.Contains(s, "goldmark/ast.") || strings.Contains(s, "goldmark/extension/ast.")
+}
+
+// tableDispatchKinds: fn is a value of a package-level `map[reflect.Kind]func(…)` built by a literal, and is
+// only ever called through a lookup of that table with `x.Kind()` as the key. Then the parameter that
+// receives x (or a value whose kind was tested equal to x's) can only have the kinds fn is registered for.
+func (k *kindOracle) tableDispatchKinds(fn *ssa.Function, idx int, callers []ssa.CallInstruction) (kindSet, bool) {
+	if fn.Pkg == nil {
+		return 0, false
+	}
+	init := fn.Pkg.Func("init")
+	if init == nil {
+		return 0, false
+	}
+	// registrations in the initialiser
+	var table ssa.Value
+	var keys kindSet
+	regs := 0
+	eachInstr(init, func(in ssa.Instruction) {
+		mu, ok := in.(*ssa.MapUpdate)
+		if !ok {
+			return
+		}
+		v := mu.Value
+		if mi, ok := v.(*ssa.MakeInterface); ok {
+			v = mi.X
+		}
+		if ct, ok := v.(*ssa.ChangeType); ok {
+			v = ct.X
+		}
+		if v != ssa.Value(fn) {
+			return
+		}
+		if kc, ok := kindConst(mu.Key); ok {
+			keys |= 1 << kc
+			regs++
+			table = mu.Map
+		}
+	})
+	if regs == 0 || table == nil {
+		return 0, false
+	}
+	// the global the table is stored in
+	var g *ssa.Global
+	eachInstr(init, func(in ssa.Instruction) {
+		if st, ok := in.(*ssa.Store); ok && st.Val == table {
+			if gg, ok := st.Addr.(*ssa.Global); ok {
+				g = gg
+			}
+		}
+	})
+	if g == nil {
+		return 0, false
+	}
+	// fn must not be referenced anywhere else
+	for _, f := range k.p.FuncsAndInits() {
+		bad := false
+		eachInstr(f, func(in ssa.Instruction) {
+			if mu, ok := in.(*ssa.MapUpdate); ok && f == init && mu.Map == table {
+				return
+			}
+			for _, op := range in.Operands(nil) {
+				if op != nil && *op == ssa.Value(fn) {
+					bad = true
+				}
+			}
+		})
+		if bad {
+			return 0, false
+		}
+	}
+	// every call goes through table[x.Kind()] and passes x (or a value of equal kind) at idx
+	for _, site := range callers {
+		cc := site.Common()
+		if cc.StaticCallee() != nil || cc.IsInvoke() || idx >= len(cc.Args) {
+			return 0, false
+		}
+		var subj any
+		found := false
+		for _, o := range k.p.origins(cc.Value, OriginOpts{}) {
+			var lk *ssa.Lookup
+			switch x := o.(type) {
+			case *ssa.Lookup:
+				lk = x
+			case *ssa.Extract:
+				lk, _ = x.Tuple.(*ssa.Lookup)
+			}
+			if lk == nil {
+				return 0, false
+			}
+			ld, ok := lk.X.(*ssa.UnOp)
+			if !ok || ld.X != ssa.Value(g) {
+				return 0, false
+			}
+			s, ok := kindCallSubject(lk.Index)
+			if !ok {
+				return 0, false
+			}
+			subj = s
+			found = true
+		}
+		if !found {
+			return 0, false
+		}
+		arg := subjectKey(cc.Args[idx])
+		if arg == subj {
+			continue
+		}
+		// a value whose kind was tested equal to the lookup subject's on a controlling edge
+		equal := false
+		for _, gd := range guardsOf(site.Block()) {
+			b := eqOnEdge(gd.If.Cond, gd.Branch)
+			if b == nil {
+				continue
+			}
+			sx, okx := kindCallSubject(b.X)
+			sy, oky := kindCallSubject(b.Y)
+			if okx && oky && ((sx == subj && sy == arg) || (sy == subj && sx == arg)) {
+				equal = true
+			}
+		}
+		if !equal {
+			return 0, false
+		}
+	}
+	return keys, true
 }
